@@ -13,7 +13,7 @@ def prop(pid, rule, assumptions, level='exploration', exhaustive=None):
 
 
 @prop('C09',
-      rule="case = one weight vector (length 1..64; families small-int/dyadic/random/huge-ratio/unnormalised/equal; zeros in front, "
+      rule="case = one weight vector (length 1..64; families small-int/dyadic/random/huge-ratio/unnormalised/equal/subnormal/near-overflow; zeros in front, "
            "middle, end) with its scripted canonical numbers {0, 2^-64, 2*2^-64, every cumulative boundary +-1,2 ulp and +-1,2 raw "
            "steps, largest below 1, seeded}; evaluated on discrete_distribution directly, on a midpoint lattice (frequencies) and "
            "as point.channel() inside hep::multi_channel. non-trivial = vector containing a zero weight; distinct = hash of (kind, T, weights).",
@@ -57,7 +57,8 @@ def c07(c):
 @prop('C08',
       rule="case = one multi_channel_refine_weights call (or chain of up to 20) on (1..64 channels; weights normalised/unnormalised/equal/wide, "
            "with zeros; data all-zero/single-non-zero/wide-range/some-zero/equal/random; beta in (0,1]; min_weight in [0,1/channels)), plus real "
-           "hep::multi_channel runs (power-law channels, 2..8/30 iterations, optional all-zero iteration, user weights with disabled channels) whose "
+           "hep::multi_channel runs (power-law channels, 2..8/30 iterations, optional all-zero iteration, user weights with disabled channels, optional "
+           "phase-space cut where all densities vanish and the integrand is zero, a third through mpi_multi_channel on the thread shim) whose "
            "every used / proposed weight vector is judged. non-trivial = at least two enabled channels with positive data whose proportion was "
            "judged (direct) or an adaptive run; distinct = hash of (T, weights, data) / run config.",
       assumptions=["proportions judged against a long double reference within 16*(n+4)*eps_T relative; channels within 16*(n+2)*eps_T of the floor are ambiguous and skipped",
@@ -96,7 +97,9 @@ def c13(c):
            "seeded (total up to 2^40, world up to 2^16) pairs; (b) mpi_plain / mpi_vegas / mpi_multi_channel on the thread MPI shim for world "
            "sizes {1,2,3,4,5,7,8,16,33} (thorough: 1..33) with calls lists drawn from {0,1,P-1,P,P+1,2P-1,2P+1,3P+2,P/2,97,100}: the raw stream "
            "position at every integrand invocation of every rank (counting engine) must tile each iteration contiguously in rank order, "
-           "per-rank counts differ by <=1 and sum to the total, all ranks end at the initial engine advanced by the whole run. "
+           "per-rank counts differ by <=1 and sum to the total, all ranks end at the initial engine advanced by the whole run; multi-channel integrands take "
+           "more random numbers than they produce coordinates; (c) per integrator one iteration of 2^32+5 (mpi_plain) / 2^31+6 calls on 7 ranks in an "
+           "optimised build (per rank: count, first and last stream position, step between consecutive calls, end position). "
            "non-trivial = world>=2 and calls not divisible by world or calls<world; distinct = (integrator, T, world, calls list).",
       assumptions=["the clause 'symbolically for unbounded integers' cannot be decided by executions; wrap-around of usage*discard beyond 2^64 is not explored",
                    "per-rank shares are observed (integrand invocations + stream positions), not re-derived from the formula duplicated in the three MPI headers",
@@ -148,7 +151,8 @@ def c10(c):
 @prop('C14',
       rule="case = one hep::plain_iteration whose integrand returns a value sequence scripted by call ordinal (one-large-then-small(eps/4), "
            "alternating cancellation, geometric decay, random magnitudes over 20 decades, 2^digits then all ones, small negatives after a large "
-           "value, random signs with outliers), N in {1,2,3,10,1e3,1e5} or up to 1e6 (quick) / 1e7 (thorough), with or without a 1-d "
+           "value, random signs with outliers; every sequence also mirrored; a quarter scaled to within `digits` binary orders of the smallest normal "
+           "number, where the compensation term is subnormal), N in {1,2,3,10,1e3,1e5} or up to 1e6 (quick) / 1e7 (thorough), with or without a 1-d "
            "distribution of 1..4 unit-width bins fed by a second adversarial sequence per bin; |sum - exact| <= (4+4*N*eps)*eps*sum|v| with "
            "the exact sum from a Shewchuk expansion. non-trivial = a sequence on which naive summation (computed alongside in T) breaks the "
            "same bound; distinct = (T, sequence kind, N, scale, distribution).",
@@ -166,12 +170,13 @@ def c14(c):
       rule="case = one run of hep::plain / vegas / multi_channel (dims 1..3, 1..3 iterations of 0..600 calls, mt19937 or a scripted engine that "
            "forces canonical 0 / largest-below-1 / 2^-64 into every coordinate and the channel selector) with a recording integrand (value class "
            "zero / finite / NaN / inf chosen by a hash of the point, optional explicit weight request, optional projector use) and a recording "
-           "channel map (power-law channels, lazy or eagerly-filling densities, weights with disabled channels); the event stream of every "
+           "channel map (power-law channels, lazy or eagerly-filling densities, coordinates call returning jacobian / 0 / NaN, weights with disabled channels); "
+           "VEGAS on uniform grids or user grids with zero-width bins, 2..16 or 7/37/50/61/100 bins, scripted numbers next to k/bins; the event stream of every "
            "call is run through the protocol state machine. non-trivial = run containing zero-valued, non-zero and weight-requesting calls; "
            "distinct = run configuration hash.",
       assumptions=["'same buffers' is judged within one call (addresses and content hashes between the two map calls); buffers may differ between calls",
                    "a density request after the integrand returned zero is accepted only if the integrand itself requested the weight (directly or via projector.add)",
-                   "VEGAS points may sit up to 2 ulp outside their bin (rounding of the interpolation)"])
+                   "VEGAS points may sit up to 2 ulp right of their bin (rounding of left + t*width); left of it never (judged exactly)"])
 def c17(c):
     c.std([dict(src='c17_protocol.cpp', build='asan', shards={'quick': 5, 'thorough': 5}),
            dict(src='c17_protocol.cpp', build='clang', shards={'quick': 1, 'thorough': 5}, tiers=('thorough',))])
@@ -202,7 +207,8 @@ def c02(c):
 @prop('C06',
       rule="case = a PAIR of runs (poisoned, zeroed twin) of hep::plain / vegas / multi_channel with the same engine seed over 3..6 adaptive "
            "iterations of 100..1200 calls: the poison set is a hash of the sampled point (rate: ~one point in 512, 1%, 30%, 100%), kind NaN / +inf / "
-           "-inf / mixed, source integrand return / value handed to projector.add / weight (map jacobian NaN, jacobian inf, all densities zero), "
+           "-inf / mixed, source integrand return / value handed to projector.add / weight (map jacobian NaN, jacobian inf, all densities zero, "
+           "densities of the disabled channels NaN/inf), "
            "with 1-d or 2-d distributions; the twin returns 0 and omits exactly the non-finite adds. All fields of all iterations, the next "
            "grid/weights and the stored generator are compared bitwise; non_zero_calls must differ by the number of poisoned evaluations; "
            "every number of the poisoned run must be finite. non-trivial = adaptive integrator and a poisoned subset that is neither empty "
@@ -224,7 +230,9 @@ def c06(c):
            "entry must be allowed by exact arithmetic on (x-min)/size (either neighbour within one rounding error of an edge), x fastest, matching "
            "mid_points_x/y. (B) whole PLAIN/VEGAS(non-uniform grid)/multi-channel iterations with hash-chosen interior/outside coordinates: per-bin "
            "exact sums, entry counts, bin calls == N, sum(bins*area) == everything projected inside, and a differential run integrating "
-           "f*indicator(bin)/area with the same random numbers. non-trivial = every placement layout; runs with at least one outside hit; "
+           "f*indicator(bin)/area with the same random numbers; a third of the runs go through the MPI integrators on the thread shim; half are followed by "
+           "2..4 short iterations accumulated with weighted_equally / weighted_with_variance (every accumulated bin reports the total number of calls, "
+           "the equally weighted bin is the average of the per-iteration bins). non-trivial = every placement layout; runs with at least one outside hit; "
            "distinct = layout / run configuration hash.",
       assumptions=["a coordinate within 4*eps_T*(|q| + (|x|+|min|)/size) of an edge is ambiguous: either adjacent bin (or outside at the range ends) is accepted",
                    "float ranges are limited to 1e+-12 so that 1/area^2 stays representable; double/long double use 1e+-30",
@@ -266,7 +274,10 @@ import c18 as _c18
            "from scratch once per crash point: SIGKILL before and after EVERY event, and inside every write after a byte prefix (all prefixes "
            "for writes <= 4 KiB in the thorough tier; otherwise 0,1,n/2,n-1, every 4 KiB and 8191-byte boundary +-1 and 12..64 seeded offsets). "
            "After each kill the file must be absent (first iteration only) or byte-equal to the previous or the new reference checkpoint, "
-           "and a restart without faults must reach the reference final checkpoint. non-trivial = every executed kill point; distinct = "
+           "and a restart without faults must reach the reference final checkpoint. Every second kill is followed by a second job on the file that was "
+           "left, killed before its first write: the file must be byte-identical afterwards. Additionally every write of every iteration is made to fail "
+           "with ENOSPC after 0 / half / all-but-one of its bytes (the descriptor keeps failing); the process is killed when the next iteration is done or "
+           "ends normally, and the same admissibility and restart rules apply. non-trivial = every executed kill point; distinct = "
            "(workload, event number, before/after/partial, prefix).",
       assumptions=["a process kill cannot observe page-cache loss: durability against power failure (fsync) is out of reach",
                    "kills inside a system call are modelled at byte-prefix granularity of write/writev",
@@ -371,7 +382,8 @@ def c20(c):
 
 @prop('C19',
       rule="case = one VEGAS or multi-channel run of 2..5 (thorough 2..8) iterations with seeded non-default alpha / beta / minimum weight, default or "
-           "user-supplied grid / weight vector (unnormalised, with zeros), executed serially, resumed through text at a random cut, or on 2/3/5 "
+           "user-supplied grid / weight vector (unnormalised, with zeros), executed serially, resumed through text at a random cut (including cut 0: the "
+           "never-run checkpoint goes through text), rolled back and re-run with other calls, continued on the shim from a checkpoint with results, or on 2/3/5 "
            "shim-MPI ranks. Checked: result 0 records exactly the user grid / the normalised user weights / the uniform default; result k+1 "
            "records bitwise the library's own refinement of result k under the checkpoint's parameters; and every logged call is re-derived "
            "from a private copy of the engine: canonical numbers -> reference inverse CDF on the grid recorded in the result (bin exact, point "
